@@ -1,3 +1,119 @@
-"""placeholder, replaced below"""
-def run_selftest(**kw): return 0
-def selftest_for_check(prop): return {"variants": 0}
+"""Rule self-test: each rule must fire on a scratch copy with one instance broken and stay silent
+on a behaviour-preserving variant. Variants are textual edits (anchor must match exactly once)
+applied to a temporary copy of /repo/ffcx *outside* /repo and /verif; the copy is only analysed,
+never executed, and removed afterwards. Results are judged relative to the findings on the
+unedited tree, so the self-test stays meaningful when the tree under analysis already carries a
+finding.
+"""
+
+from __future__ import annotations
+
+import os
+import shutil
+import tempfile
+import time
+from concurrent.futures import ProcessPoolExecutor
+from pathlib import Path
+
+from .variants import VARIANTS
+
+
+def _copy_repo(dst: Path, src: Path):
+    (dst / "ffcx").mkdir(parents=True)
+    for p in (src / "ffcx").rglob("*"):
+        if p.is_file() and p.suffix in (".py", ".h"):
+            q = dst / p.relative_to(src)
+            q.parent.mkdir(parents=True, exist_ok=True)
+            shutil.copyfile(p, q)
+
+
+def _finding_keys(root: str, rule_names: list[str]):
+    from . import rules  # noqa: F401
+    from .model import AnalysisError, Repo
+    from .registry import run_rule
+
+    repo = Repo(Path(root))
+    keys = set()
+    errors = []
+    for n in rule_names:
+        try:
+            r = run_rule(n, repo)
+            for f in r.findings:
+                keys.add((f.rule, f.key))
+        except AnalysisError as e:
+            errors.append(f"{n}: {e}")
+    return keys, errors
+
+
+def _run_variant(args):
+    v, src_root = args
+    t0 = time.time()
+    tmp = Path(tempfile.mkdtemp(prefix="sa_selftest_"))
+    try:
+        _copy_repo(tmp, Path(src_root))
+        base_keys, base_err = _finding_keys(str(tmp), v["rules"])
+        applied = 0
+        for rel, old, new in v["edits"]:
+            p = tmp / rel
+            if not p.exists():
+                continue
+            s = p.read_text()
+            if s.count(old) != 1:
+                continue
+            p.write_text(s.replace(old, new))
+            applied += 1
+        if applied != len(v["edits"]):
+            return {"name": v["name"], "status": "skipped", "why": "anchor text not present exactly once", "wall": time.time() - t0}
+        keys, err = _finding_keys(str(tmp), v["rules"])
+        new = keys - base_keys
+        analysis_error = [e for e in err if e not in base_err]
+        if v["kind"] == "fire":
+            ok = bool(new) or (bool(analysis_error) and v.get("error_ok", False))
+            if ok and v.get("expect_key"):
+                ok = any(v["expect_key"] in k for _r, k in new)
+        else:
+            ok = not new and not analysis_error
+        return {
+            "name": v["name"], "status": "ok" if ok else "FAILED", "kind": v["kind"],
+            "new_findings": sorted(f"{r}:{k}" for r, k in new)[:6], "analysis_errors": analysis_error[:3],
+            "wall": round(time.time() - t0, 2),
+        }
+    finally:
+        shutil.rmtree(tmp, ignore_errors=True)
+
+
+def run_variants(selected, jobs=16):
+    src = os.environ.get("VERIF_REPO", "/repo")
+    if not selected:
+        return []
+    with ProcessPoolExecutor(max_workers=min(jobs, len(selected))) as ex:
+        return list(ex.map(_run_variant, [(v, src) for v in selected]))
+
+
+def selftest_for_check(prop: str) -> dict:
+    sel = [v for v in VARIANTS if prop in v["props"]]
+    results = run_variants(sel)
+    failed = [r for r in results if r["status"] == "FAILED"]
+    for r in results:
+        print(f"    selftest {r['status']:7s} {r.get('kind', ''):6s} {r['name']}" + (f"  {r.get('new_findings') or r.get('why', '')}" if r["status"] != "ok" else ""))
+    return {
+        "variants": len(results),
+        "ok": sum(1 for r in results if r["status"] == "ok"),
+        "skipped": [r["name"] for r in results if r["status"] == "skipped"],
+        "failed": [r["name"] for r in failed],
+        "firing_ok": sum(1 for r in results if r["status"] == "ok" and r.get("kind") == "fire"),
+        "benign_ok": sum(1 for r in results if r["status"] == "ok" and r.get("kind") == "benign"),
+    }
+
+
+def run_selftest(prop=None, jobs=16, only=None) -> int:
+    sel = [v for v in VARIANTS if (prop is None or prop in v["props"]) and (only is None or only in v["name"])]
+    t0 = time.time()
+    results = run_variants(sel, jobs)
+    bad = 0
+    for r in results:
+        print(f"{r['status']:7s} {r.get('kind', ''):6s} {r['name']:60s} {r.get('wall', '')}s  {r.get('new_findings', r.get('why', ''))}")
+        if r["status"] == "FAILED":
+            bad += 1
+    print(f"{len(results)} variants, {bad} failed, {sum(1 for r in results if r['status'] == 'skipped')} skipped, {time.time() - t0:.1f}s")
+    return 2 if bad else 0
